@@ -137,3 +137,12 @@ pub fn run(tier: Tier, seed: u64, ev: &mut Evidence) -> Vec<Violation> {
 pub fn replay(case: &Value) -> Result<Option<Violation>, String> {
     crate::props::c01::replay_as("C02", case)
 }
+
+pub fn rerun(_tier: Tier, seed: u64, run: u64) -> Option<Violation> {
+    let small = enumerate_small();
+    if (run as usize) < small.len() {
+        one_run(seed, run, Some(&small[run as usize])).violation
+    } else {
+        one_run(seed, run, None).violation
+    }
+}
